@@ -137,4 +137,107 @@ def acceptLocalsText (regions : List Region) (text : List Char) : Bool :=
   | none => false
   | some fr => acceptLocals regions fr
 
+/-! ### The addresses finally printed and assembled
+
+The property is about the bytes the *compiled and printed* function touches, not about the `Mem` values
+`AllocLocal` returned: every pass of `pass.Compile` that runs after the function was built may rewrite operands
+or the frame size.  The part below models the stack operands of the emitted instructions and the pipeline step
+`EnsureBasePointerCalleeSaved` on the whole function (frame AND operands). -/
+
+/-- One stack operand of an emitted instruction: it was built from the `Mem` returned for local number `loc`
+(`m.Offset(delta)`), and the instruction accesses `width` bytes there (0 for `LEAQ`). -/
+structure Ref where
+  loc   : Nat
+  delta : Int
+  width : Int
+  deriving Repr, DecidableEq, Inhabited
+
+/-- A function-building step with its stack operands. -/
+inductive POp where
+  | alloc (size : Int)
+  | instr (writesBP : Bool) (refs : List Ref)
+  deriving Repr
+
+def POp.toOp : POp → Op
+  | .alloc s => .alloc s
+  | .instr w _ => .instr w
+
+/-- A function under construction together with the SP-relative operands emitted so far, in program order,
+each with the displacement it carries. -/
+structure FnP where
+  fn   : Fn := {}
+  mems : List (Ref × Int) := []
+  deriving Repr
+
+/-- `m.Offset(delta).Disp` for the `Mem` returned by allocation number `loc` (operand.Mem.Offset adds to Disp). -/
+def refDisp (f : Fn) (r : Ref) : Int :=
+  match f.regions[r.loc]? with
+  | some g => g.off + r.delta
+  | none => r.delta
+
+def stepP (f : FnP) : POp → FnP
+  | .alloc s => { f with fn := allocLocal f.fn s }
+  | .instr w rs => { fn := step f.fn (.instr w), mems := f.mems ++ rs.map (fun r => (r, refDisp f.fn r)) }
+
+def runP (f : FnP) (ops : List POp) : FnP := ops.foldl stepP f
+
+/-- Result of compiling, operands included. -/
+structure CompiledP where
+  frame : Compiled
+  mems  : List (Ref × Int)
+  deriving Repr, DecidableEq
+
+/-- The pipeline step `EnsureBasePointerCalleeSaved` on the whole function: the frame part is `ensureBP`; the
+operands of the instructions are left exactly as they were emitted.  (Every other pass of `pass.Compile` leaves
+frame and SP-relative operands alone; the exact `final` stream compares the compiled function with this.) -/
+def ensureBPFn (f : FnP) (noframe : Bool) : Option CompiledP :=
+  (ensureBP f.fn noframe).map (fun c => ⟨c, f.mems⟩)
+
+def compileP (ops : List POp) (noframe : Bool) : Option CompiledP :=
+  ensureBPFn (runP {} ops) noframe
+
+/-- One stack operand as it is finally printed (or assembled): what it was emitted for, and the displacement
+from the hardware stack pointer that was observed. -/
+structure Seen where
+  ref  : Ref
+  disp : Int
+  deriving Repr, DecidableEq, Inhabited
+
+/-- The observed operand addresses byte `delta` of the region handed out for its local. -/
+def addrOKB (regions : List Region) (s : Seen) : Bool :=
+  match regions[s.ref.loc]? with
+  | some g => s.disp == g.off + s.ref.delta
+  | none => false
+
+/-- The acceptor of the finally printed function: every printed stack operand still addresses the region
+`AllocLocal` handed out for it, and those regions (with the forced local) satisfy the property against the
+frame the assembler allocates for the printed TEXT line. -/
+def acceptFinal (regions : List Region) (forced : Option Region) (seen : List Seen) (text : List Char) : Bool :=
+  seen.all (addrOKB regions) && acceptLocalsText (regions ++ forced.toList) text
+
+/-- Diagnostics only: the region local `j` finally occupies, read off the first observed operand that refers to
+it (a local no operand refers to stays where AllocLocal put it). -/
+def finalRegion (seen : List Seen) (j : Nat) (g : Region) : Region :=
+  match seen.find? (fun s => s.ref.loc == j) with
+  | some s => ⟨s.disp - s.ref.delta, g.size⟩
+  | none => g
+
+def finalRegionsFrom (seen : List Seen) : Nat → List Region → List Region
+  | _, [] => []
+  | j, g :: gs => finalRegion seen j g :: finalRegionsFrom seen (j + 1) gs
+
+/-- The bytes `[s.disp, s.disp + width)` really accessed lie inside the region handed out for the local. -/
+def accessInB (regions : List Region) (s : Seen) : Bool :=
+  match regions[s.ref.loc]? with
+  | some g => decide (s.ref.width ≤ 0) || (decide (g.off ≤ s.disp) && decide (s.disp + s.ref.width ≤ g.off + g.size))
+  | none => false
+
+/-- The acceptor of the MEASURED function (assembled, disassembled): `top` is the measured distance from the
+stack pointer (after the prologue) to the lowest reserved word, `reserved` are the measured reserved slots (the
+word where the prologue stored BP, the return address); `seen` carry measured displacements and access widths. -/
+def acceptMeasured (regions : List Region) (seen : List Seen) (top : Int) (reserved : List Region) : Bool :=
+  seen.all (addrOKB regions) && seen.all (accessInB regions) &&
+  regions.all (insideB · top) && pairwiseB regions &&
+  reserved.all (fun s => regions.all (disjointB · s))
+
 end Avo.Locals
